@@ -112,6 +112,18 @@ def check_tree(d, M, seed):
                 with Listing("sorted"):
                     generate_static_site(src, o, M)
                 r["title"] = old_title + " edited"
+                # structural edits too: a new recipe and a changed README title in the same directory
+                dd = [x for rl, x in gen_site.walk(d) if rl == rel][0]
+                added = dict(file="added-later.md", title="Added later", servings=2, links=[])
+                dd["recipes"].append(added)
+                (p.parent / added["file"]).write_text(gen_site.recipe_text(added))
+                old_readme = dd["readme"]
+                dd["readme"] = dict(file=(old_readme or {}).get("file", "README.md"), title="Renamed category", links=[])
+                (p.parent / dd["readme"]["file"]).write_text("# Renamed category\n\nhello\n\n\n")
+                o3 = scratch / "out-edit2"
+                with Listing("sorted"):
+                    generate_static_site(src, o3, M)
+                o = o3
                 fresh = scratch / "fresh-src"
                 gen_site.write_tree(d, fresh / "my site")
                 o2 = scratch / "out-fresh"
@@ -124,6 +136,11 @@ def check_tree(d, M, seed):
                 out.append(("C17:regeneration-after-edit-raises", type(e).__name__))
             finally:
                 r["title"] = old_title
+                try:
+                    dd["recipes"].remove(added)
+                    dd["readme"] = old_readme
+                except Exception:
+                    pass
         return out
     finally:
         shutil.rmtree(scratch, ignore_errors=True)
@@ -131,6 +148,13 @@ def check_tree(d, M, seed):
 
 def gen_case(rng, force_equal=False):
     d = gen_site.gen_tree(rng, rng.randint(0, 2), gen_site.SAFE_NAMES, servings_pool=(None, 1, 2))
+    if force_equal == 'case':
+        # equal titles AND names that differ only in letter case (legitimate on a case-sensitive file system)
+        d["recipes"] = [r for r in d["recipes"] if r["file"].lower() not in ("soup.md",)]
+        d["recipes"] += [dict(file="Soup.md", title="Soup", servings=2, links=[]), dict(file="soup.md", title="Soup", servings=2, links=[])]
+        d["subdirs"] += [dict(name="Pies", readme=None, recipes=[dict(file="a.md", title="A", servings=1, links=[])], subdirs=[], assets=[]),
+                         dict(name="pies", readme=None, recipes=[dict(file="b.md", title="B", servings=1, links=[])], subdirs=[], assets=[])]
+        return d, rng.randint(2, 3)
     if force_equal:
         while len(d["recipes"]) < 2:
             d["recipes"].append(dict(file="extra%d.md" % len(d["recipes"]), title="Same", servings=2, links=[]))
@@ -150,7 +174,7 @@ def gen_case(rng, force_equal=False):
 def oracle(run):
     rng = run.rng
     for i in range(run.budget(14, 300)):
-        d, M = gen_case(rng, force_equal=(i % 7 == 0))
+        d, M = gen_case(rng, force_equal=('case' if i % 7 == 0 else (i % 7 == 3)))
         run.case(("oracle", gen_site.tree_sexp(d), M), True, kind="site-x3")
         seen = set()
         for sig, detail in check_tree(d, M, rng.randint(0, 10 ** 6)):
